@@ -11,6 +11,7 @@ import (
 	"sync"
 	"time"
 
+	"github.com/mimiro-io/datahub/internal/jobs"
 	"github.com/mimiro-io/datahub/internal/server"
 	"github.com/mimiro-io/datahub/internal/verifrt/engine"
 )
@@ -208,12 +209,18 @@ func peerRun() (res peerResult) {
 	trig := func(jt string) []interface{} {
 		return []interface{}{map[string]interface{}{"triggerType": "cron", "jobType": jt, "schedule": "0 0 1 1 *"}}
 	}
+	// one job object per job id, as in the hub: built once, run by its trigger again and again
+	objs := map[string]*jobs.JJob{}
 	run := func(id string) string {
-		pn, err := p.local.jw.JRunStoredJobSync(id)
-		if err != nil {
-			return "harness: " + err.Error()
+		jo := objs[id]
+		if jo == nil {
+			var err error
+			if jo, err = p.local.jw.JLoadStoredJob(id); err != nil {
+				return "harness: " + err.Error()
+			}
+			objs[id] = jo
 		}
-		return pn
+		return jo.RunSync()
 	}
 	sizes := []int{0, 1, 3, 5, 12}
 	batches := []int{1, 2, 10}
